@@ -79,6 +79,17 @@ def case_text(inp):
     return close(norm(got), norm(inp['expected'])), inp['expected'], got, ('text', inp['text'])
 
 
+def case_glycan_text(inp):
+    """an explicit glycan text: the counts it spells (zero counts contribute nothing), and mass / composition of the string agree with them"""
+    got = pt.parse_glycan_formula(inp['text'])
+    if not close(norm(got), norm(inp['expected'])):
+        return False, ('counts the text spells', inp['expected']), got, None
+    lin = sum(c_ * pt.glycan_mass({n_: 1}) for n_, c_ in inp['expected'].items())
+    if abs(pt.glycan_mass(inp['text']) - lin) > 1e-6:
+        return False, ('mass of the text == count-weighted sum', lin), pt.glycan_mass(inp['text']), None
+    return True, None, None, ('gtext', inp['text'])
+
+
 def case_malformed(inp):
     """a malformed formula text is rejected with a ValueError-family error -- it never hangs and never yields a composition"""
     import signal
@@ -197,6 +208,10 @@ def run(rec, tier, seed):
         for nm in rnd.sample(names, rnd.randint(1, 4)):
             g[nm] = rnd.choice([1, 2, 5, 20, rnd.randint(1, 20)])
         gl.append(g)
+    # explicit zero counts in a written glycan string contribute nothing (write_glycan_formula keeps zeros)
+    for txt, cnt in (('HexNAc2Hex0Fuc1', {'HexNAc': 2, 'Fuc': 1}), ('Hex0', {}), ('Hex0.0HexNAc1', {'HexNAc': 1}), ('Fuc1Hex0', {'Fuc': 1})):
+        inp = dict(text=txt, expected=cnt)
+        rec.guarded('glycan-texts', inp, lambda: case_glycan_text(inp), fk)
     for g in gl:
         # a written form is unambiguous when re-parsing it cannot split differently: decided by trying all name orders is expensive;
         # use the library's own sorted-name tokenizer as the definition and check round trip only for single-name or well-separated sets
@@ -208,7 +223,7 @@ def main():
     a = args()
     if a.replay:
         replay_main(a, {'write-parse-roundtrip': case_roundtrip, 'additivity': case_additive, 'formula-texts': case_text, 'glycan': case_glycan,
-                        'malformed-formula-rejected': case_malformed, 'mass-vs-independent-table': case_nist})
+                        'malformed-formula-rejected': case_malformed, 'glycan-texts': case_glycan_text, 'mass-vs-independent-table': case_nist})
     rec = Recorder('C15-bounded',
                    'compositions over all elements of the bundled table, isotope-prefixed keys, D/T, e/p/n, integer counts in [-200,500], '
                    'decimal counts with up to 4 places, explicit zeros x separators {"", " ", "|"} x hill order: parse(write(c)) == c without '
